@@ -1249,43 +1249,13 @@ Octagonal_Shape<T>::is_disjoint_from(const Octagonal_Shape& y) const {
   }
 
   // Two Octagonal_Shapes are disjoint if and only if their
-  // intersection is empty, i.e., if and only if there exists a
-  // variable such that the upper bound of the constraint on that
-  // variable in the first Octagonal_Shape is strictly less than the
-  // lower bound of the corresponding constraint in the second
-  // Octagonal_Shape or vice versa.
-
-  const dimension_type n_rows = matrix.num_rows();
-
-  typedef typename OR_Matrix<N>::const_row_iterator row_iterator;
-  typedef typename OR_Matrix<N>::const_row_reference_type row_reference;
-
-  const row_iterator m_begin = matrix.row_begin();
-  const row_iterator m_end = matrix.row_end();
-
-  const row_iterator y_begin = y.matrix.row_begin();
-
-  PPL_DIRTY_TEMP(N, neg_y_ci_cj);
-  for (row_iterator i_iter = m_begin; i_iter != m_end; ++i_iter) {
-    using namespace Implementation::Octagonal_Shapes;
-    const dimension_type i = i_iter.index();
-    const dimension_type ci = coherent_index(i);
-    const dimension_type rs_i = i_iter.row_size();
-    row_reference m_i = *i_iter;
-    for (dimension_type j = 0; j < n_rows; ++j) {
-      const dimension_type cj = coherent_index(j);
-      row_reference m_cj = *(m_begin + cj);
-      const N& m_i_j = (j < rs_i) ? m_i[j] : m_cj[ci];
-      row_reference y_ci = *(y_begin + ci);
-      row_reference y_j = *(y_begin + j);
-      const N& y_ci_cj = (j < rs_i) ? y_ci[cj] : y_j[i];
-      neg_assign_r(neg_y_ci_cj, y_ci_cj, ROUND_UP);
-      if (m_i_j < neg_y_ci_cj) {
-        return true;
-      }
-    }
-  }
-  return false;
+  // intersection is empty.
+  // Note: comparing each bound of `*this' with the opposite bound of `y'
+  // is not enough, since the intersection may be empty only because
+  // of a negative cycle alternating constraints of the two shapes.
+  Octagonal_Shape z(*this);
+  z.intersection_assign(y);
+  return z.is_empty();
 }
 
 template <typename T>
